@@ -78,6 +78,14 @@ func newPlan(seed uint64, noise bool, tags map[*ipfslog.IPFSLog]string) *plan {
 
 func installHook() { ipfslog.SetVerifHook(hookFn) }
 
+// enableNoise installs a process-wide noise plan: every hook point of every log yields or sleeps for seeded
+// small amounts. Used by the in-process checks whose histories contain concurrent bursts; it only influences
+// which interleavings are realised.
+func enableNoise(seed int64) {
+	installHook()
+	activePlan.Store(newPlan(uint64(seed)*2654435761, true, map[*ipfslog.IPFSLog]string{}))
+}
+
 func (p *plan) traceCopy() []string {
 	p.mu.Lock()
 	defer p.mu.Unlock()
